@@ -2,7 +2,12 @@ import BarterModel.Driver.Common
 import BarterModel.Model.Connectivity
 /-! Line-protocol driver for C14. Ops: `init n [on]` (n ≤ 10; `on` = trading enabled, which connectivity does
 not depend on), `mkt e [trade|l1|book|candle|liq]`, `acc e [trade|bal|snap|ord|canc]` (the kind of the item:
-every kind is an item of its link), `mktre e`, `accre e`. -/
+every kind is an item of its link), `mktre e`, `accre e`.
+Configuration shapes: `init n <on|off> <kinds> <links> <via>` (six tokens) - `kinds` a non-empty string over
+`s p f o` (instrument kinds), `links` a non-empty string over `H C M U` (execution link per exchange label:
+healthy / closed / missing / refusing), `via` one of `proc audit state` (Engine::process / process_with_audit /
+EngineState::update_from_* directly). Connectivity depends on none of them: they only select how the real
+engine is assembled and fed. -/
 namespace BarterModel.Driver.C14
 open BarterModel.Driver BarterModel.Conn
 
@@ -18,10 +23,19 @@ def obs (global : Health) (links : List CState) (disc : List Nat) : List String 
 def marketKinds : List String := ["trade", "l1", "book", "candle", "liq"]
 def accountKinds : List String := ["trade", "bal", "snap", "ord", "canc"]
 
-/-- `init n` / `init n on`, `n ≤ 10` (the harness has ten exchange labels). -/
+/-- non-empty and every character from `alphabet` -/
+def overAlphabet (alphabet : String) (s : String) : Bool :=
+  !s.isEmpty && s.toList.all fun c => alphabet.toList.contains c
+
+/-- `init n` / `init n on` / `init n <on|off> <kinds> <links> <via>`, `n ≤ 10` (the harness has ten exchange labels). -/
 def parseInit : List String → Option Nat
   | ["init", n] => n.toNat?.bind fun n => if n ≤ 10 then some n else none
   | ["init", n, "on"] => n.toNat?.bind fun n => if n ≤ 10 then some n else none
+  | ["init", n, tr, kinds, links, via] =>
+    if (tr == "on" || tr == "off") && overAlphabet "spfo" kinds && overAlphabet "HCMU" links
+        && (via == "proc" || via == "audit" || via == "state") then
+      n.toNat?.bind fun n => if n ≤ 10 then some n else none
+    else none
   | _ => none
 
 def parseEv : List String → Option Ev
